@@ -130,6 +130,15 @@ class Check(object):
             "known_findings_hit": {k: v[1] for k, v in self.known_hits.items()},
         }
         cov.update(self.notes)
+        if not self.assumptions:
+            self.assumptions = [
+                "TLC (tla2tools 1.8) evaluates the TLA+ specification correctly; the official-suite calibration and the binding "
+                "self-test of setup.sh passed on this tree",
+                "the encoder harness/encode.py is exact (ints/floats -> sets of binary exponents, strings -> code points) and the "
+                "harness code that builds real objects from model descriptions / projects real objects to observations is right",
+                "exhaustive only within the constants stated in coverage.rule; random tiers are seeded by VERIF_SEED",
+                "the code under test is the working tree at %s" % REPO,
+            ]
         ev = {"property_id": self.pid, "tier": self.tier, "seed": int(self.seed), "level": level,
               "coverage": cov, "assumptions": self.assumptions, "wall_s": round(wall, 2),
               "violations": len(paths)}
